@@ -29,6 +29,7 @@ Definition obs_eqb (a b : obs) : bool :=
   | OPoll r f w, OPoll r' f' w' => list_eqb sres_eqb r r' && Bool.eqb f f' && list_eqb wake_eqb w w'
   | ORecv r w, ORecv r' w' => rres_eqb r r' && list_eqb wake_eqb w w'
   | OAct w, OAct w' => list_eqb wake_eqb w w'
+  | OTry r w, OTry r' w' => sres_eqb r r' && list_eqb wake_eqb w w'
   | ODisabled, ODisabled => true
   | _, _ => false
   end.
@@ -89,6 +90,20 @@ Definition observe (s : state) (l : label) (o : obs) : state * N :=
   | CloseSender t, OAct ws =>
       (mkState (buf s) (cap s) [] false (rx s) (rx_woken s || existsb is_wrecv ws) (rx_done s)
          (ntasks s) (wake_tasks ws (upd (tasks s) t (mkTask [] [] false (woken (tasks s t)))))
+         (sent s) (recvd s), 0%N)
+  | TrySend t x, OTry r ws =>
+      let closure_ok := Bool.eqb (sres_eqb r SClosed) (negb (rxst_eqb (rx s) RxOpen)) in
+      let snt := match r with SSent => [x] | _ => [] end in
+      (mkState (buf s ++ snt) (cap s) [] false (rx s) (rx_woken s || existsb is_wrecv ws) (rx_done s)
+         (ntasks s) (wake_tasks ws (tasks s)) (sent s ++ snt) (recvd s), b2N (negb closure_ok) 8)
+  | CloneSender t prog, OAct ws =>
+      (mkState (buf s) (cap s) [] false (rx s) (rx_woken s || existsb is_wrecv ws) (rx_done s)
+         (S (ntasks s)) (wake_tasks ws (upd (tasks s) (ntasks s) (init_task prog))) (sent s) (recvd s), 0%N)
+  | CancelSend t k, OAct ws =>
+      let tk := tasks s t in
+      let tk1 := advance (mkTask (remove_nth k (cur tk)) (rest tk) true true) in
+      (mkState (buf s) (cap s) [] false (rx s) (rx_woken s || existsb is_wrecv ws) (rx_done s)
+         (ntasks s) (wake_tasks ws (upd (tasks s) t (mkTask (cur tk1) (rest tk1) true (negb (finished tk1)))))
          (sent s) (recvd s), 0%N)
   | CloseRx, OAct ws =>
       (mkState (buf s) (cap s) [] false RxClosed (rx_woken s || existsb is_wrecv ws) (rx_done s)
